@@ -208,6 +208,18 @@ fn run_try(w: &mut World, scn: &Value, labels: &Labels, default_secret: &[u8]) -
                     w.store.put_raw(&name_of(&p["name"], labels), bytes_of(&p["value"]), p["creation"].as_u64().unwrap_or(0));
                 } else if let Some(p) = t.get("creation") {
                     w.store.set_creation(&name_of(&p["name"], labels), p["t"].as_u64().unwrap_or(0));
+                } else if let Some(p) = t.get("copy") {
+                    let from = name_of(&p["from"], labels);
+                    let to = name_of(&p["to"], labels);
+                    if let Some((_, v, c)) = w.store.dump().into_iter().find(|(n, _, _)| *n == from) {
+                        w.store.put_raw(&to, v, c);
+                    }
+                } else if let Some(p) = t.get("put_latest") {
+                    let id = id_of(p, labels);
+                    let created = w.store.dump().into_iter().find(|(n, _, _)| n == "latest").map(|x| x.2).unwrap_or(0);
+                    // keep the position of `latest` in the store: replace the value in place
+                    w.store.remove_raw("latest");
+                    w.store.put_raw("latest", id.as_simple().to_string().into_bytes(), created);
                 } else if let Some(p) = t.get("remove") {
                     w.store.remove_raw(&name_of(&p["name"], labels));
                 } else if let Some(p) = t.get("now") {
@@ -334,6 +346,9 @@ pub fn run(scn: &Value) -> Value {
         let mut out = run_try(&mut w, scn, &labels, &secret);
         let ok = order_ok(scn, &labels);
         if ok || tries >= max_tries {
+            if scn.get("inspect_sealing").and_then(|b| b.as_bool()).unwrap_or(false) {
+                out["sealing"] = inspect_sealing(&w.store, &secret);
+            }
             let l: serde_json::Map<String, Value> = labels.borrow().iter().map(|(k, u)| (k.to_string(), hex(*u))).collect();
             out["labels"] = Value::Object(l);
             out["order_matched"] = json!(ok);
@@ -341,6 +356,41 @@ pub fn run(scn: &Value) -> Value {
             return out;
         }
     }
+}
+
+/// For every version / snapshot object in the store: which version id (its own, or the parent's) opens it
+/// under the independent implementation of the documented construction.
+fn inspect_sealing(store: &MemStore, secret: &[u8]) -> Value {
+    let objs = store.dump();
+    let salt = objs.iter().find(|(n, _, _)| n == "salt").map(|x| x.1.clone()).unwrap_or_default();
+    let mut out = Vec::new();
+    for (name, value, _) in objs.iter() {
+        let (own, parent) = if let Some(rest) = name.strip_prefix("v-") {
+            if rest.len() != 65 {
+                continue;
+            }
+            (Uuid::parse_str(&rest[33..]).ok(), Uuid::parse_str(&rest[..32]).ok())
+        } else if let Some(rest) = name.strip_prefix("s-") {
+            (Uuid::parse_str(rest).ok(), None)
+        } else {
+            continue;
+        };
+        let mut opens = Value::Null;
+        if let Some(o) = own {
+            if let Ok(p) = crate::refcrypto::open(&salt, secret, o, value) {
+                opens = json!({"with": "own", "plain": p});
+            }
+        }
+        if opens.is_null() {
+            if let Some(p) = parent {
+                if let Ok(pl) = crate::refcrypto::open(&salt, secret, p, value) {
+                    opens = json!({"with": "parent", "plain": pl});
+                }
+            }
+        }
+        out.push(json!({"name": name, "len": value.len(), "opens": opens}));
+    }
+    Value::Array(out)
 }
 
 /// Sealing scenarios: the real seal/unseal against an independent implementation of the documented
